@@ -165,7 +165,7 @@ PROPERTIES = {
         "level": "exploration",
         "rule": ("event programs as for C02; the unlimited run of the real code gives the sequence E; limited runs built with Builder::max_itr / max_time / "
                  "limit (nested And/Or trees, several calls combine with or): for programs <= 30 events EVERY count 0..|E|+2 and every time below / at / "
-                 "between / above the timestamps, plus random trees of depth <= 3; every single count / time limit is also applied through the stepping interface (start, one dispatch_n_events / dispatch_events_until, finish). Oracle: independent limit-tree evaluator gives the stop index p; handled "
+                 "between / above the timestamps, plus random trees of depth <= 3; every single count / time limit is also applied through the stepping interface (start, one dispatch_n_events / dispatch_events_until, finish); a quarter of the limited runs is additionally driven as start, random n-event / until-time steps (a third of the n-steps drains the event set) with events added from outside while paused, dispatch_all, finish - the configured limit must be back in force after every step (the reference is the model driven through the same steps; what the steps themselves handled stays handled). Oracle: independent limit-tree evaluator gives the stop index p; handled "
                  "== E[0..p), event_count == p, end time == time of E[p-1] (start time if p = 0), remaining == multiset of (event, timestamp) scheduled by "
                  "the prefix and not handled. Non-trivial = run stopped with events pending after dispatching at least one; distinct = hash of (program, limit)."),
         "exhaustive_part": "every event-count limit and every time limit around every timestamp for programs of <= 30 events",
@@ -177,9 +177,11 @@ PROPERTIES = {
         ],
         "floor": {
             "quick": {"limited_executions": 300000, "runs_stopped_with_events_pending": 200000, "stops_inside_a_tie_group": 20000,
-                      "combined_limits": 50000, "programs_with_exhaustive_limits": 5000, "remaining_events_returned": 500000},
+                      "combined_limits": 50000, "programs_with_exhaustive_limits": 5000, "remaining_events_returned": 500000,
+                      "limits_kept_across_steps_and_external_adds": 100000, "limited_runs_with_an_add_after_a_step_drained_the_event_set": 20000},
             "thorough": {"limited_executions": 6000000, "runs_stopped_with_events_pending": 4000000, "stops_inside_a_tie_group": 400000,
-                         "combined_limits": 1000000, "programs_with_exhaustive_limits": 100000, "heap_limited_executions": 1000000},
+                         "combined_limits": 1000000, "programs_with_exhaustive_limits": 100000, "heap_limited_executions": 1000000,
+                         "limits_kept_across_steps_and_external_adds": 1500000, "limited_runs_with_an_add_after_a_step_drained_the_event_set": 300000},
         },
     },
     "C07": {
